@@ -472,3 +472,19 @@ def run(repo, rep, tier):  # noqa: F811 -- round-6 remedies (core/round6.py)
 _ADDR6C = ' R05.15: inside the registries could_be_none=False is never forced and pack_X / unpack_X judge the same number of element positions afresh (could_be_none=True).'
 EXPLANATION += _ADDR6C
 LEVEL_TEXT += _ADDR6C
+
+
+_run_before_r6c = run
+
+
+def run(repo, rep, tier):  # noqa: F811 -- round-6 remedies, batch 3
+    _run_before_r6c(repo, rep, tier)
+    if getattr(rep, "borrowed", False):
+        return
+    from ..core import round6 as _r6c
+    _r6c.speculative_variant_calls_guarded(repo, rep, "R05.16")
+
+
+_ADDR6D = ' R05.16: in no-field discriminator mode every emitted speculative `return <variant>.<call>` (including the retry after an on-demand compilation) sits inside an emitted try.'
+EXPLANATION += _ADDR6D
+LEVEL_TEXT += _ADDR6D
